@@ -29,7 +29,7 @@
 
 enum { E_TO_SOFTSTOP = 1, E_TO_OFF, E_TO_OTHER, E_FLUSH, E_RESET_TRAINS, E_PORT_CLOSE, E_NODE_FREE, E_UQ_FREE, E_UEQ_FREE,
        E_UIQ_FREE, E_STATE_FREE, E_STATE_INIT, E_SYS_RESET, E_COMM, E_SET_READ, E_SET_WRITE, E_NODE_INIT };
-#define LOG_MAX 40
+#define LOG_MAX (24 * SESSIONS)
 static int ev[LOG_MAX], ev_n;
 static bool ev_running[LOG_MAX];
 static void rec(int e) { VASSUME(ev_n < LOG_MAX); ev_running[ev_n] = bidib_running; ev[ev_n++] = e; }
